@@ -872,7 +872,13 @@ func runScript(en *Env, sc *gscript, idx int, stats map[string]int) {
 		case "mergemark":
 			if r := g.merge; r != nil {
 				g.s.setFree(r)
-				if g.s.settle(r, 10*time.Second) == gDone {
+				wait := 10 * time.Second
+				if g.bopen || g.client != nil {
+					// the flush that precedes the marker needs the database lock, which an open batch or a parked
+					// client call holds: the merge ends when they do (a behaviour of a deviating model may say otherwise)
+					wait = 300 * time.Millisecond
+				}
+				if g.s.settle(r, wait) == gDone {
 					g.merge = nil
 				}
 			}
